@@ -99,7 +99,7 @@ inductive Item (L : Type) where
   | op (s : Step L)
   /-- a region: any number of these accesses, in any order -/
   | anyOf (accs : List (Step L))
-  deriving Repr
+  deriving DecidableEq, Repr
 
 def isAccess : Step L → Bool
   | .read _ => true
